@@ -27,8 +27,10 @@ RULE = ("for each partitioning (mp, re), order n and excitation class: the "
         "order bookkeeping function gen_term_orders is compared with its "
         "Gallina model exhaustively for small arguments.  Non-trivial: "
         "order >= 1; distinct by (quantity, order, class, model, indices)")
-TRUSTED = ["harness/detspace.py (independent determinant-space engine) and "
-           "harness/numeric.py (expression evaluator)",
+TRUSTED = ["harness/detspace.py: construction of the H0/H1 matrices in "
+           "determinant space (the linear solver is not trusted: the "
+           "perturbation series is certified by the Coq checker rspt_ok on "
+           "every run) and harness/numeric.py (expression evaluator)",
            "the per-run comparison with explicit RSPT is exact evaluation on "
            "sampled model Hamiltonians, not a proof over all Hamiltonians; "
            "the theorems proved are listed in the manifest"]
@@ -156,6 +158,32 @@ def run(ctx):
         if variant == "mp":
             for n in range(max_order + 1):
                 jobs.append(("expect", variant, n, None, seeds))
+    # the explicit series used by the workers are certified inside Coq
+    # (Models/RSPTCheck.v, theorem C02_rspt_certificate)
+    cert_cases, cert_meta = [], []
+    seen = set()
+    for kind, variant, n, k, seeds in jobs:
+        for seed in seeds:
+            if (variant, seed) in seen:
+                continue
+            seen.add((variant, seed))
+            space = detspace.Space(3, 3, seed, canonical=(variant == "mp"))
+            E, psi = space.rspt(variant, 3)
+            cert_cases.append(detspace.rspt_cert_term(space, E, psi, 3))
+            cert_meta.append((variant, seed))
+    vals, errs = ctx.coq_eval("rspt", cert_cases,
+                              header=detspace.RSPT_HEADER, shard=4)
+    for (variant, seed), v in zip(cert_meta, vals):
+        ctx.case(key=("rspt-certificate", variant, seed), nontrivial=True,
+                 kind="rspt-certificate")
+        if not ctx.obligation(f"explicit {variant} RSPT series of model "
+                              f"{seed} accepted by rspt_ok (orders 0-3)",
+                              v == "true", str(v)):
+            ctx.violation(f"C02:explicit-engine:{variant}",
+                          "the explicit determinant-space perturbation "
+                          "series is rejected by the verified checker "
+                          "rspt_ok (harness/detspace.py is wrong)",
+                          {"variant": variant, "seed": seed}, False)
     import concurrent.futures as cf
     import multiprocessing as mp_
     with cf.ProcessPoolExecutor(max_workers=12,
